@@ -2249,6 +2249,7 @@ static inline int
 bn_mult_digit(bn_p bn, bn_digit_t n) {
 	bn_t tmp;
 	size_t digits;
+	bn_digit_t crr = 0, crr2 = 0;
 
 	/* Speed optimizations. */
 	if (0 != bn_is_zero(bn))
@@ -2260,13 +2261,17 @@ bn_mult_digit(bn_p bn, bn_digit_t n) {
 		break;
 	case 1:
 		break;
-	case 2: // XXX shift check
-		BN_RET_ON_ERR(bn_add(bn, bn, NULL));
+	case 2:
+		BN_RET_ON_ERR(bn_add(bn, bn, &crr));
+		if (0 != crr)
+			return (EOVERFLOW);
 		break;
 	case 3:
 		BN_RET_ON_ERR(bn_assign_init(&tmp, bn));
-		BN_RET_ON_ERR(bn_add(&tmp, &tmp, NULL));
-		BN_RET_ON_ERR(bn_add(bn, &tmp, NULL));
+		BN_RET_ON_ERR(bn_add(&tmp, &tmp, &crr));
+		BN_RET_ON_ERR(bn_add(bn, &tmp, &crr2));
+		if (0 != crr || 0 != crr2)
+			return (EOVERFLOW);
 		break;
 	default:
 		digits = bn->digits;
